@@ -99,6 +99,65 @@ func c04Gen(thorough bool) func(emit func(*h1.Scenario)) {
 	}
 }
 
+// c04WithUnusable: three and four shards among which some are not usable in this cycle (not ready, out of sync):
+// placement indices into the list of usable shards and into the list of all shards differ. Shards: nearly full
+// (filler 90), roomy (filler 10), one movable target of 30, empty.
+func c04WithUnusable(emit func(*h1.Scenario)) {
+	kinds := []string{"not-ready", "out-of-sync", "fill90", "fill10", "C30", "empty"}
+	for _, n := range []int{3, 4} {
+		dims := []int{}
+		for i := 0; i < n; i++ {
+			dims = append(dims, len(kinds))
+		}
+		dims = append(dims, 2, 2)
+		product(dims, func(ix []int) {
+			unusable := 0
+			for s := 0; s < n; s++ {
+				if ix[s] < 2 {
+					unusable++
+				}
+			}
+			if unusable == 0 || unusable == n {
+				return // all usable: covered by the main grammar
+			}
+			head := []int64{0, 100}[ix[n]]
+			b := newB(h1.Opt{MaxHead: head, MaxProc: 100, MaxShard: 99, IdleSec: 3600}, n)
+			note := ""
+			for s := 0; s < n; s++ {
+				k := kinds[ix[s]]
+				note += k + ","
+				h := uint64(100 * (s + 1))
+				switch k {
+				case "not-ready", "out-of-sync":
+					b.Target(h, 30, 30, true, "up")
+					b.Copy(s, h, h1.St{Health: "up", Times: 5, Series: 30, Total: 30})
+					if k == "not-ready" {
+						b.Class(s, shNotReady)
+					} else {
+						b.Class(s, shHashAcceptStill)
+					}
+				case "fill90", "fill10":
+					f := int64(90)
+					if k == "fill10" {
+						f = 10
+					}
+					b.Target(h+50, f, f, true, "down")
+					b.Copy(s, h+50, h1.St{Health: "down", Times: 5, Series: f, Total: f})
+				case "C30":
+					b.Target(h, 30, 30, true, "up")
+					b.Copy(s, h, h1.St{Health: "up", Times: 5, Series: 30, Total: 30})
+				}
+			}
+			if ix[n+1] == 1 {
+				b.Target(1, 10, 10, true, "up")
+			}
+			sc := b.Done(7200)
+			sc.Note = note
+			emit(sc)
+		})
+	}
+}
+
 func c04Oracle(sc *h1.Scenario, o *h1.Obs) []Finding {
 	var fs []Finding
 	opt := sc.Opt
@@ -294,6 +353,7 @@ func init() {
 			}
 			runH1(c, 2, two, c04Oracle, nontrivial)
 		}
+		runH1(c, 1, c04WithUnusable, c04Oracle, nontrivial)
 		runH1(c, 1, c04Gen(c.Thorough()), c04Oracle, func(sc *h1.Scenario, o *h1.Obs) bool {
 			rep := &sc.Cycles[0][0]
 			for si := range rep.Shards {
